@@ -489,6 +489,50 @@ def prime_options():
                     pass
 
 
+def scene_problems(ref, pred):
+    """ASSD of every matched instance as the evaluator reports it (matched input) against the definition applied to the two masks of
+    the WHOLE input: the value of a pair must not depend on what else is in the scene"""
+    from harness import impl as H
+    from harness import pipeline
+    common.serial_pool()
+    out = H.evaluate(H.make_evaluator({"input": "matched", "imetrics": ["ASSD"], "gmetrics": []}), pred.copy(), ref.copy())
+    if isinstance(out, tuple):
+        return ["evaluation of matched instances raised: " + str(out[1:])], None
+    r = H.canon_result(out["ungrouped"][0])
+    labs = [int(l) for l in np.unique(ref) if l and (pred == l).any()]
+    want = sorted(pipeline.assd_definition(ref == l, pred == l) for l in labs)
+    got = sorted(r["metrics"].get("ASSD", {}).get("all", []))
+    if len(got) != len(want) or any(abs(a - b) > 1e-9 * max(1.0, abs(b)) for a, b in zip(got, want)):
+        return [f"ASSD per matched instance {got} but the definition on the masks of the whole input gives {want}"], r
+    return [], r
+
+
+def scene_layer(ctx):
+    """a matched reference split by the prediction, the other fragment being (part of) ANOTHER matched prediction that reaches well beyond
+    the matched part; instances on the faces; 2-D and 3-D"""
+    rng = ctx.rng
+    for _ in range(ctx.scale(25, 250)):
+        a, g, b = rng.randint(9, 14), rng.randint(1, 2), rng.randint(4, 7)
+        h = rng.choice([1, 2, 3])
+        cut = rng.randint(2, a - 5)
+        ref = np.zeros((h, a + g + b + 1), np.uint8); pred = np.zeros_like(ref)
+        ref[:, 0:a] = 1; ref[:, a + g:a + g + b] = 2
+        pred[:, 0:cut] = 1
+        far = rng.randint(cut + 3, a - 1)
+        pred[:, far:a] = 2; pred[:, a + g:a + g + b] = 2                 # prediction 2 also covers the far end of reference 1
+        if rng.random() < 0.3:
+            ref, pred = ref[:, ::-1].copy(), pred[:, ::-1].copy()
+        if rng.random() < 0.4:
+            ref, pred = np.ascontiguousarray(ref.T), np.ascontiguousarray(pred.T)
+        if rng.random() < 0.3:
+            ref = np.stack([ref, ref, np.zeros_like(ref)]); pred = np.stack([pred, np.zeros_like(pred), pred])
+        ctx.count({"scene": True, "ref": ref.tolist(), "pred": pred.tolist()}, True)
+        ctx.bump("evaluator scene / split reference with a far fragment of another matched prediction")
+        bad, r = scene_problems(ref, pred)
+        if bad:
+            ctx.violation("evaluator: " + "; ".join(bad[:2]), {"mode": "scene", "ref": ref, "pred": pred, "observed": r})
+
+
 def run(ctx):
     axiom_audit(ctx)
     prime_options()
@@ -688,6 +732,7 @@ def run(ctx):
     for j in range(0, len(dense_in), max(1, len(dense_in) // 10)):
         if len(dense_in[j][1]) + len(dense_in[j][2]) <= 40:
             triples.append((703, dense_in[j], dense_out[j]))
+    scene_layer(ctx)
     n, bad = coq_crosscheck("C07", triples)
     ctx.crosschecked = n
     for b in bad:
@@ -704,6 +749,15 @@ def run(ctx):
 # ------------------------------------------------------------------ replay
 def replay(path):
     d = json.loads(open(path).read())
+    if d.get("mode") == "scene":
+        prime_options()
+        ref, pred = common.arr_from_json(d["ref"]), common.arr_from_json(d["pred"])
+        bad, r = scene_problems(ref, pred)
+        print("reference:\n", ref, "\nprediction:\n", pred)
+        for x in bad:
+            print("PROPERTY FAILS ON THE IMPLEMENTATION:", x)
+        print("DIFFER" if bad else "agree")
+        return 1 if bad else 0
     if d.get("mode") == "large":
         # a large, almost empty volume stored as its shape and the coordinates of the foreground voxels
         ref = np.zeros(d["shape"], dtype=bool)
